@@ -81,6 +81,7 @@ type WorkerOut struct {
 	Args         WorkerArgs        `json:"args"`
 	Runs         int               `json:"runs"`
 	Steps        int64             `json:"steps"`
+	MaxRunSteps  int               `json:"max_run_steps"`
 	SimNs        float64           `json:"sim_ns"`
 	Events       int64             `json:"events"`
 	WallS        float64           `json:"wall_s"`
